@@ -14,6 +14,7 @@ Non-interference argument in four structural legs:
                   earlier requests.
  R4 shared state: the cross-request spectrum state (oms_list) is handed only to spectrum assignment, which runs after
                   all propagation; the per-request loop only writes attributes of its own request object.
+ Rm memo          : every memoisation construct in the functions behind this property is keyed by everything it reads.
 """
 import ast
 
@@ -284,4 +285,9 @@ def r5_memo(ctx):
     ctx.need('R5.memo', 2)
 
 
-RULES = [('R5.memo', r5_memo), ('R1.isolation', r1_isolation), ('R2.no-leak', r2_no_leak), ('R3.redesign', r3_redesign), ('R4.shared', r4_shared)]
+
+from ..memo import rule_for as _memo_rule
+
+RULES_MEMO = ('Rm.memo', _memo_rule('C16', 'requests would share a result'))
+
+RULES = [('R5.memo', r5_memo), ('R1.isolation', r1_isolation), ('R2.no-leak', r2_no_leak), ('R3.redesign', r3_redesign), ('R4.shared', r4_shared), RULES_MEMO]
